@@ -134,27 +134,25 @@ def resample1U (m : Nat) (x : List (Cx R)) : List (Cx R) :=
 def resample1 (m : Nat) (x : List (Cx R)) : List (Cx R) :=
   (resample1U m x).map (Cx.smul (Num.ofRat ((m : Rat) / (x.length : Rat))))
 
-/-- apply a per-line transform along axis `ax` of a row-major array (new axis length `m`) -/
+/-- the 1-D line of `a` through multi-index `j` along axis `ax` -/
+def line {β : Type} [Inhabited β] (a : Arr β) (ax : Nat) (j : List Nat) : List β :=
+  (List.range (a.shape.getD ax 1)).map fun i => a.get (j.set ax i)
+
+/-- apply a per-line transform along axis `ax` (new axis length `m`): first one transformed
+line per position of the other axes (axis `ax` collapsed to length 1), then every output
+element is read from its line -/
 def alongAxis {β : Type} [Inhabited β] (a : Arr β) (ax m : Nat) (f : List β → List β) : Arr β :=
-  let outer := prod (a.shape.take ax)
-  let n := a.shape.getD ax 1
-  let inner := prod (a.shape.drop (ax + 1))
-  let d := a.data.toArray
-  let lines : Array (Array β) := (Array.range (outer * inner)).map fun q =>
-    let o := q / inner
-    let k := q % inner
-    (f ((List.range n).map fun i => d.getD ((o * n + i) * inner + k) default)).toArray
-  let data' := (List.range (outer * m * inner)).map fun p =>
-    let k := p % inner
-    let i := (p / inner) % m
-    let o := p / (inner * m)
-    (lines.getD (o * inner + k) #[]).getD i default
-  ⟨a.shape.set ax m, data'⟩
+  let lines : Arr (List β) := build (a.shape.set ax 1) fun j => f (line a ax j)
+  build (a.shape.set ax m) fun j => (lines.get (j.set ax 0)).getD (j.getD ax 0) default
+
+/-- the 1-D operator (without rescale) applied along each (axis, new length) pair in turn -/
+def resampleFold (a : Arr (Cx R)) (pairs : List (Nat × Nat)) : Arr (Cx R) :=
+  pairs.foldl (fun acc (p : Nat × Nat) => alongAxis acc p.1 p.2 (resample1U p.2)) a
 
 /-- N-D `fourier_resample` of the array: `axes`/`outs` paired, real input keeps the real part,
 then the single rescale by `N_out / N_in` -/
 def resampleNd (a : Arr (Cx R)) (axes : List Nat) (outs : List Nat) (isReal : Bool) : Arr (Cx R) :=
-  let r := (axes.zip outs).foldl (fun acc (p : Nat × Nat) => alongAxis acc p.1 p.2 (resample1U p.2)) a
+  let r := resampleFold a (axes.zip outs)
   let nIn := prod (axes.map fun ax => a.shape.getD ax 1)
   let nOut := prod outs
   let sc : R := Num.ofNat nOut / Num.ofNat nIn
